@@ -740,7 +740,7 @@ def run(ctx):
     res = tlc(mod, "Checkpoint: back doors of a READ handle")
     if not any(st["a"] == "backdoor" for r in res.records for st in r["h"]):
         raise vlib.InfraError(mod + ": no back-door attempt in the histories")
-    doors = Repeat(res.records, 4 if quick else 6)
+    doors = Repeat(res.records, 4 if quick else 3)
     replay(ctx, cat, exe, doors, "doors", lambda n: Binding(cat, n * 29 + off, A, B, C),
            probe_of=lambda n: n % 3 == 0)
     ctx.sample({"doors_history": res.records[len(res.records) // 2]})
@@ -758,7 +758,7 @@ def run(ctx):
     bigkinds = sorted(k for k in big if big[k])
     if len(bigkinds) < 3 or "tabc" not in cat.kinds:
         raise vlib.InfraError("catalogue lacks large values / compact tables: %s" % bigkinds)
-    rounds = 1 if quick else 3
+    rounds = 1 if quick else 2
     rolesets = []
     for r in range(rounds):
         for t in triples:
@@ -822,7 +822,7 @@ def run(ctx):
     ctx.extra["storage_class_pairs_rewritten"] = len(seen_pairs)
 
     # ---- 4. deeper random histories ------------------------------------------------------------
-    nsim = 15 if quick else 200
+    nsim = 15 if quick else 120
     res = tlc("MCSim", "Checkpoint simulation", simulate=nsim, depth=12, workers=4, seed=ctx.seed)
     # (half of them observed only at the end: intermediate fresh readers must not be what keeps the file right)
     if res.records:
